@@ -141,15 +141,17 @@ def _lib_decode(cls, raw):
     return out
 
 
-def d1_v2_builder(src):
-    n = 1 + src.choice("records", 3)
+def d1_v2_builder(src, max_records=3, small=False):
+    keys = [None, b"k", b"K" * 64] if small else KEYS
+    values = [None, b"v", VALUES[-1]] if small else VALUES
+    n = 1 + src.choice("records", max_records)
     ts = TIMESTAMPS[src.choice("timestamps", len(TIMESTAMPS))]
     codec = src.choice("gzip", 2)
     txn = src.flag("transactional")
     recs = []
     for i in range(n):
-        recs.append(dict(offset=i, timestamp=ts[i], key=KEYS[src.choice(f"key{i}", len(KEYS))],
-                         value=VALUES[src.choice(f"value{i}", len(VALUES))],
+        recs.append(dict(offset=i, timestamp=ts[i], key=keys[src.choice(f"key{i}", len(keys))],
+                         value=values[src.choice(f"value{i}", len(values))],
                          headers=HEADERS[src.choice(f"headers{i}", len(HEADERS))] if i == 0 else []))
     # batch-size limit: generous, or exactly at / just below the size needed for the first k records
     sizes = [len(REF.encode_v2(0, recs[:k])) for k in range(1, n + 1)]
@@ -331,6 +333,7 @@ def harnesses(tier):
     q = tier == "quick"
     hs = [
         Harness(name="D1_v2_builder_vs_reference", fn=d1_v2_builder,
+                params={"max_records": 2, "small": True} if q else {"max_records": 3, "small": False},
                 functions=[_DefaultRecordBatchBuilderPy.append, _DefaultRecordBatchBuilderPy.build, _DefaultRecordBatchBuilderPy.size,
                            _DefaultRecordBatchPy._read_msg, _DefaultRecordBatchPy.validate_crc], shape="U",
                 symbolic_vars="finite-domain choices: 1-3 records, key/value from a boundary menu (null, empty, 63/64 bytes, incompressible), headers (null value, non-ASCII key), timestamp patterns (decreasing, delta > int32), gzip, transactional, producer id/epoch/sequence extremes, batch_size at/just below the encoded size",
